@@ -9,7 +9,7 @@ namespace SfntV.Dsl
 def GsubAllOk (f : Font) (l : Lookup) : Prop := Gsub14Ok f l ∨ LookupCtxOk f 5 l ∨ LookupChainOk f 6 l
 
 /-- descriptions mixing GSUB lookups of all types -/
-theorem roundtrip_gsub_all (f : Font) (hf : FontOk f) (hk : NoKwNames f) (ls : List Lookup)
+theorem roundtrip_gsub_all (f : Font) (hf : FontOk f) (ls : List Lookup)
     (h : ∀ l ∈ ls, GsubAllOk f l) : parseBytes f (explainGsub f ls) = .ok (normalize ls) := by
   have hne : ∀ l ∈ ls, l.subtables ≠ [] := by
     intro l hl
@@ -30,12 +30,12 @@ theorem roundtrip_gsub_all (f : Font) (hf : FontOk f) (hk : NoKwNames f) (ls : L
   · exact item_of_form f 2 _ _ _ (form2 f hf) l h2.typ h2.flags h2.ne h2.subs _ hb
   · exact item_of_form f 3 _ _ _ (form3 f hf) l h3.typ h3.flags h3.ne h3.subs _ hb
   · exact item_of_form f 4 _ _ _ (form4 f hf) l h4.typ h4.flags h4.ne h4.subs _ hb
-  · exact item_gsub5 f hf hk l h5 _ (by omega)
-  · exact item_gsub6 f hf hk l h6 _ (by omega)
+  · exact item_gsub5 f hf l h5 _ (by omega)
+  · exact item_gsub6 f hf l h6 _ (by omega)
 
-theorem roundtrip_gsub5 (f : Font) (hf : FontOk f) (hk : NoKwNames f) (ls : List Lookup)
+theorem roundtrip_gsub5 (f : Font) (hf : FontOk f) (ls : List Lookup)
     (h : ∀ l ∈ ls, LookupCtxOk f 5 l) : parseBytes f (explainGsub f ls) = .ok ls := by
-  have := roundtrip_gsub_all f hf hk ls (fun l hl => Or.inr (Or.inl (h l hl)))
+  have := roundtrip_gsub_all f hf ls (fun l hl => Or.inr (Or.inl (h l hl)))
   have hn : normalize ls = ls := by
     unfold normalize
     rw [List.map_congr_left (g := id)]
@@ -48,9 +48,9 @@ theorem roundtrip_gsub5 (f : Font) (hf : FontOk f) (hk : NoKwNames f) (ls : List
       simp [this]
   rw [hn] at this; exact this
 
-theorem roundtrip_gsub6 (f : Font) (hf : FontOk f) (hk : NoKwNames f) (ls : List Lookup)
+theorem roundtrip_gsub6 (f : Font) (hf : FontOk f) (ls : List Lookup)
     (h : ∀ l ∈ ls, LookupChainOk f 6 l) : parseBytes f (explainGsub f ls) = .ok ls := by
-  have := roundtrip_gsub_all f hf hk ls (fun l hl => Or.inr (Or.inr (h l hl)))
+  have := roundtrip_gsub_all f hf ls (fun l hl => Or.inr (Or.inr (h l hl)))
   have hn : normalize ls = ls := by
     unfold normalize
     rw [List.map_congr_left (g := id)]
@@ -67,7 +67,7 @@ theorem roundtrip_gsub6 (f : Font) (hf : FontOk f) (hk : NoKwNames f) (ls : List
 def GposAllOk (f : Font) (l : Lookup) : Prop := GposLook4Ok f l ∨ LookupCtxOk f 7 l ∨ LookupChainOk f 8 l
 
 /-- descriptions mixing GPOS lookups of all types -/
-theorem roundtrip_gpos_all (f : Font) (hf : FontOk f) (hk : NoKwNames f) (ls : List Lookup)
+theorem roundtrip_gpos_all (f : Font) (hf : FontOk f) (ls : List Lookup)
     (h : ∀ l ∈ ls, GposAllOk f l) : parseBytes f (explainGpos f ls) = .ok (normalize ls) := by
   refine roundtrip_pos2_of_items f ls (fun l hl => by
     rcases h l hl with (h1 | h2 | h3 | h4) | h7 | h8
@@ -87,12 +87,12 @@ theorem roundtrip_gpos_all (f : Font) (hf : FontOk f) (hk : NoKwNames f) (ls : L
   · obtain ⟨hc, hfr⟩ := body3 f hf l h3 (tokCount (posText f ls) + 3) (by omega)
     exact ⟨readGpos3 f _, by rw [h3.typ]; exact pos_kw_ok 3 (by decide), by rw [h3.typ]; exact gpos3_dispatch f _, hc, Or.inl hfr⟩
   · exact item4_of_p4 f hf l h4 _ (by omega)
-  · exact item_gpos7 f hf hk l h7 _ (by omega)
-  · exact item_gpos8 f hf hk l h8 _ (by omega)
+  · exact item_gpos7 f hf l h7 _ (by omega)
+  · exact item_gpos8 f hf l h8 _ (by omega)
 
-theorem roundtrip_gpos7 (f : Font) (hf : FontOk f) (hk : NoKwNames f) (ls : List Lookup)
+theorem roundtrip_gpos7 (f : Font) (hf : FontOk f) (ls : List Lookup)
     (h : ∀ l ∈ ls, LookupCtxOk f 7 l) : parseBytes f (explainGpos f ls) = .ok ls := by
-  have := roundtrip_gpos_all f hf hk ls (fun l hl => Or.inr (Or.inl (h l hl)))
+  have := roundtrip_gpos_all f hf ls (fun l hl => Or.inr (Or.inl (h l hl)))
   have hn : normalize ls = ls := by
     unfold normalize
     rw [List.map_congr_left (g := id)]
@@ -105,9 +105,9 @@ theorem roundtrip_gpos7 (f : Font) (hf : FontOk f) (hk : NoKwNames f) (ls : List
       simp [this]
   rw [hn] at this; exact this
 
-theorem roundtrip_gpos8 (f : Font) (hf : FontOk f) (hk : NoKwNames f) (ls : List Lookup)
+theorem roundtrip_gpos8 (f : Font) (hf : FontOk f) (ls : List Lookup)
     (h : ∀ l ∈ ls, LookupChainOk f 8 l) : parseBytes f (explainGpos f ls) = .ok ls := by
-  have := roundtrip_gpos_all f hf hk ls (fun l hl => Or.inr (Or.inr (h l hl)))
+  have := roundtrip_gpos_all f hf ls (fun l hl => Or.inr (Or.inr (h l hl)))
   have hn : normalize ls = ls := by
     unfold normalize
     rw [List.map_congr_left (g := id)]
